@@ -700,11 +700,19 @@ func (m *Model) Pull(name string, max int, now time.Time, resp []*pubsubpb.Recei
 				// the same link-to-the-previous-delivery-only design shows without
 				// a seek when retention was changed between publishes: the direct
 				// predecessor expires before an older same-key message does (F12b)
-				sig["expired_direct_predecessor"] = by != nil && !by.Seek && dp != nil && dp != by && dp.State != Acked && dp.State != DLd && m.expiry(dp, now) >= 0
+				// (also its follow-on in the same history: once a direct predecessor
+				// was handed out that way and acknowledged, its own successor is
+				// released the same way)
+				sig["expired_direct_predecessor"] = by != nil && !by.Seek && dp != nil && dp != by && dpSettled
 				viols = append(viols, Viol{Prop: c.prop, Rule: "must-not/" + c.reason, Sig: sig, Detail: fmt.Sprintf("Pull(%s) at +%v returned message #%d (key %q) while earlier message #%d with the same key is still outstanding (attempts %d, state %s)", name, now.Sub(epoch), d.Msg.Idx, d.Msg.Spec.Key, by.Msg.Idx, by.N, by.State)})
 			} else {
 				var also []string
 				if d.Seek && c.reason == "acked" {
+					also = append(also, "C13")
+				}
+				if d.Seek && c.reason == "retention-over" {
+					// a seek gives what it revives a fresh retention of the
+					// subscription's message retention, no more
 					also = append(also, "C13")
 				}
 				if c.reason != "retention-over" && m.expiry(d, now) == 1 {
@@ -839,7 +847,9 @@ func (m *Model) Pull(name string, max int, now time.Time, resp []*pubsubpb.Recei
 					d.N = int(rm.DeliveryAttempt) - 1
 				}
 			}
-			if !now.Before(d.Exp.Add(-Eps)) {
+			// (a seek that may or may not have revived it may or may not have
+			// given it a fresh retention)
+			if d.Seek || !now.Before(d.Exp.Add(-Eps)) {
 				d.ExpUnknown = true
 			}
 		}
